@@ -770,12 +770,14 @@ def sim_ref(ref, tv):
 
 RESP_H = [('1/(s + 1)', lambda t: 1 - math.exp(-t)),
           ('2/(s + 3)', lambda t: 2.0 / 3 * (1 - math.exp(-3 * t))),
-          ('(s + 3)/(s**2 + 3*s + 2)', lambda t: 2 * (1 - math.exp(-t)) - 0.5 * (1 - math.exp(-2 * t)))]
+          ('(s + 3)/(s**2 + 3*s + 2)', lambda t: 2 * (1 - math.exp(-t)) - 0.5 * (1 - math.exp(-2 * t))),
+          # improper: s + 2 + 1/(s + 1); response to x = t^2 (quotient terms act on x and x')
+          ('(s**2 + 3*s + 3)/(s + 1)', lambda t: 2 * t + 2 * t * t + (t * t - 2 * t + 2 - 2 * math.exp(-t)))]
 
 
 def response_cases(rng, tier):
     cs = []
-    hi = rng.randrange(len(RESP_H))
+    hi = rng.randrange(3)
     for wrap in (None, 'transfer'):
         for method in ('bilinear', 'impulse-invariance', 'backward-euler', 'forward-euler'):
             if tier == 'quick' and wrap == 'transfer' and method in ('forward-euler',):
@@ -783,6 +785,9 @@ def response_cases(rng, tier):
             for N in (101, 401):
                 cs.append({'kind': 'response', 'H': RESP_H[hi][0], 'hi': hi, 'method': method, 'T': '4', 'N': N, 'input': 'step',
                            'wrap': wrap, 'id': 'response:%s:%s' % (wrap or 'expr', method)})
+    for N in (101, 401):
+        cs.append({'kind': 'response', 'H': RESP_H[3][0], 'hi': 3, 'method': 'impulse-invariance', 'T': '2', 'N': N, 'input': 'quad',
+                   'wrap': None, 'id': 'response:improper:impulse-invariance'})
     return cs
 
 
@@ -1371,7 +1376,12 @@ def run(tier='quick', replay=None):
                 d1 = max(abs(a / h1 - b) for a, b in zip(y1, f1))
                 d2 = max(abs(a / h2 - b) for a, b in zip(y2, f2))
                 key = 'response:result-scaled-by-dt' if d2 <= 0.6 * d1 else 'response:no-convergence:' + cid
-                add_cex(key, '%s.response(step, t, method=%s): max error vs the symbolic step response %.3g (N=%d) -> %.3g (N=%d); error of result/dt: %.3g -> %.3g' % (
+                # all samples but the last converge: the derivative of the input is zeroed at the final point
+                l1 = max(abs(a - b) for a, b in zip(y1[:-1], f1[:-1]))
+                l2 = max(abs(a - b) for a, b in zip(y2[:-1], f2[:-1]))
+                if l2 <= 0.6 * l1 and 'improper' in cid:
+                    key = 'response:impulse-invariance:improper-last-sample'
+                add_cex(key, '%s.response(x, t, method=%s): max error vs the symbolic response %.3g (N=%d) -> %.3g (N=%d); error of result/dt: %.3g -> %.3g' % (
                     c2['H'], c2['method'], e1, N1, e2, N2, d1, d2), c2, float_evidence=True)
         res.extra['convergence_errors_coarse_fine'] = conv
         res.rule = ('exact class: %d generated expressions in t,f,omega,s,n,k,z (sums/products of rational functions, Heaviside/DiracDelta/sign/rect/tri/'
